@@ -21,7 +21,7 @@ def _work(job):
         row = runner.run_scenario(sc)
     except BaseException as e:  # noqa: BLE001
         return {'sid': sid, 'err': f'harness: {type(e).__name__}: {e}\n{traceback.format_exc()}', 'lines': None, 'nrec': 0}
-    if row['err'] == 'budget' and len(row['log']) <= MAXREC:
+    if row['err'] in ('budget', 'deadlock') and len(row['log']) <= MAXREC:
         # the run never came to rest: its history up to the point where the harness stopped it is still followed
         try:
             lines = translate.translate(row, sid, cfg)
